@@ -79,3 +79,24 @@ claim(
     note="Band oracle: regressions inside the band are by definition not violations; quadrature convergence is self-checked (2^17 vs 2^15 points).",
     design_ref="DESIGN.md section 4 C04",
 )
+claim(
+    "C06",
+    technique="Hypothesis recursive strategy over residual program trees, differential against the closed form (x + tau f(x))/sqrt(1+tau^2) evaluated with plain torch autograd; gradient hooks; gradcheck",
+    text="Generated-input search over 1-8 nested/sequential residual layers with branch functions from a differentiable family and tau in [1e-3,1e3]: outputs and x.grad equal the closed form (rel 1e-10/1e-9), the gradient at the branch output equals the gradient at the add output (unattenuated), mixing weights are normalised with ratio tau, residual_apply is bitwise split/f/add, gradcheck passes.",
+    note="Unit-scaled ops inside branches are evaluated by the library on both sides (their own correctness is C01/C02/C05).",
+    design_ref="DESIGN.md section 4 C06",
+)
+claim(
+    "C08",
+    technique="Hypothesis over module class x constructor options x mode x shapes; differential (bitwise) against the documented functional form on the module's own parameters and (scalar fit) against the same-named torch.nn twin sharing the state_dict; statistical init windows; tag table",
+    text="Generated-input search: every public module with every constructor option varied computes bit-for-bit what the corresponding unit_scaling.functional composition computes (outputs and all gradients), matches its torch.nn twin in shape and up to one positive scalar, rejects unsupported options at construction, starts with unit-variance weights / zero biases / unit gains (7-sigma windows) and carries the expected u-muP type and depth tags, depth containers refusing untagged parameters.",
+    note="einops and torch.nn are trusted; functional forms of MLP/MHSA/TransformerLayer/TransformerDecoder are written out in the harness from their docstrings.",
+    design_ref="DESIGN.md section 4 C08",
+)
+claim(
+    "C09",
+    technique="Hypothesis history generation (operation sequences of length 0-4, model-based: a reference model of tag/depth/values/requires_grad/lr carried alongside and compared after every step)",
+    text="Generated histories over deep copies, pickle and torch.save/load round trips of the parameter or its module, dtype conversions, state-dict loads, requires_grad toggles and library transforms: after every step the parameter is still an nn.Parameter with the model's tag, depth, values and requires_grad, and scaled_parameters / SGD / Adam / AdamW accept it with the original learning-rate factor.",
+    note="Histories drawn as lists rather than a RuleBasedStateMachine (same search space, replayable as data); pickling a module after a transform and transforms after track_scales are outside the domain.",
+    design_ref="DESIGN.md section 4 C09",
+)
